@@ -46,6 +46,8 @@ class F:
             return o
         if isinstance(o, int):
             return F(self.m, self.c ^ (o & 1))
+        if isinstance(o, AFin):
+            return o.__xor__(self)
         return F(self.m ^ o.m, self.c ^ o.c)
 
     __rxor__ = __xor__
@@ -95,6 +97,167 @@ class OB:
 
     def __repr__(self):
         return f"OB({self.why})"
+
+
+MAX_FIN_ATOMS = 12
+
+
+class _Raises:
+    """marker inside an AFin table: evaluating under this assignment raises"""
+
+    def __init__(self, exc):
+        self.exc = exc
+
+    def __eq__(self, o):
+        return isinstance(o, _Raises) and o.exc == self.exc
+
+    def __hash__(self):
+        return hash(("raises", self.exc))
+
+    def __repr__(self):
+        return f"<raises {self.exc}>"
+
+
+class AFin:
+    """a value given as an explicit function (truth table) of k <= 12 boolean atoms; exact, not an
+    over-approximation.  atoms: sorted tuple of atom ids; table[idx] with idx bit i = value of atoms[i]"""
+    __slots__ = ("atoms", "table")
+    is_const = False
+
+    def __init__(self, atoms, table):
+        self.atoms, self.table = tuple(atoms), list(table)
+
+    def value(self, assign):
+        idx = 0
+        for i, a in enumerate(self.atoms):
+            if assign[a]:
+                idx |= 1 << i
+        return self.table[idx]
+
+    def __xor__(self, o):
+        return fin_lift(lambda a, b: (int(a) ^ int(b)) & 1, self, o)
+
+    __rxor__ = __xor__
+
+    def __eq__(self, o):
+        return isinstance(o, AFin) and self.atoms == o.atoms and self.table == o.table
+
+    def __hash__(self):
+        return hash((self.atoms, tuple(map(repr, self.table))))
+
+    def __repr__(self):
+        return f"AFin(atoms={list(self.atoms)})"
+
+
+def fin_atoms(v, acc):
+    if isinstance(v, AFin):
+        acc.update(v.atoms)
+    elif isinstance(v, F):
+        acc.update(v.atoms())
+    elif isinstance(v, AInt):
+        if v.ext is not None:
+            raise Abort("unbounded symbolic int in finite-function domain")
+        for b in v.bits:
+            fin_atoms(b, acc)
+    elif isinstance(v, AEnum):
+        fin_atoms(v.val, acc)
+    elif isinstance(v, (tuple, list)):
+        for x in v:
+            fin_atoms(x, acc)
+    elif isinstance(v, OB):
+        raise Abort("opaque bit in finite-function domain")
+    elif isinstance(v, (ABits, AObj, AOpq, ATable, AView, ACond)):
+        raise Abort(f"{type(v).__name__} in finite-function domain")
+
+
+def fin_conc(v, assign):
+    """concrete python value of v under a full assignment of its atoms"""
+    if isinstance(v, AFin):
+        return v.value(assign)
+    if isinstance(v, F):
+        c = v.c
+        for a in v.atoms():
+            c ^= assign[a]
+        return c
+    if isinstance(v, AInt):
+        x = 0
+        for i, b in enumerate(v.bits):
+            x |= fin_conc(b, assign) << i
+        return bool(x) if v.isbool else x
+    if isinstance(v, tuple):
+        return tuple(fin_conc(x, assign) for x in v)
+    if isinstance(v, list):
+        return [fin_conc(x, assign) for x in v]
+    return v
+
+
+def mkfin(atoms, table):
+    """canonical AFin: drop atoms the function does not depend on; constant -> the constant itself"""
+    atoms = list(atoms)
+    table = list(table)
+    i = 0
+    while i < len(atoms):
+        bit = 1 << i
+        dep = False
+        for idx in range(len(table)):
+            if not idx & bit and table[idx] != table[idx | bit]:
+                dep = True
+                break
+        if dep:
+            i += 1
+            continue
+        table = [table[idx] for idx in range(len(table)) if not idx & bit]
+        # re-pack: remove bit i from indices (entries are already ordered with bit i == 0 kept)
+        atoms.pop(i)
+    if not atoms:
+        return table[0]
+    return AFin(atoms, table)
+
+
+def fin_to_bit(v):
+    """an AFin with 0/1 values as a bit: an affine form if it is affine, else the AFin itself"""
+    if not isinstance(v, AFin):
+        return v
+    table = v.table
+    if not all((t is True or t is False or (isinstance(t, int) and t in (0, 1))) for t in table):
+        return OB("non-boolean finite function as bit")
+    c = int(table[0])
+    k = len(v.atoms)
+    coef = [int(table[1 << i]) ^ c for i in range(k)]
+    for idx in range(len(table)):
+        x = c
+        for i in range(k):
+            if idx >> i & 1:
+                x ^= coef[i]
+        if x != int(table[idx]):
+            return AFin(v.atoms, [int(t) for t in table])
+    m = 0
+    for i, a in enumerate(v.atoms):
+        if coef[i]:
+            m |= 1 << a
+    return F(m, c)
+
+
+def fin_lift(fn, *args):
+    """apply a python function pointwise over the joint assignments of the atoms of args"""
+    acc = set()
+    for a in args:
+        fin_atoms(a, acc)
+    atoms = sorted(acc)
+    if len(atoms) > MAX_FIN_ATOMS:
+        raise Abort(f"finite-function domain too wide ({len(atoms)} atoms)")
+    table = []
+    for idx in range(1 << len(atoms)):
+        assign = {a: (idx >> i) & 1 for i, a in enumerate(atoms)}
+        vals = [fin_conc(a, assign) for a in args]
+        if any(isinstance(v, _Raises) for v in vals):
+            table.append([v for v in vals if isinstance(v, _Raises)][0])
+            continue
+        try:
+            table.append(fn(*vals))
+        except (KeyError, IndexError, ValueError, ZeroDivisionError, TypeError) as e:
+            table.append(_Raises(type(e).__name__))
+    return mkfin(atoms, table)
 
 
 ZERO, ONE = F(0, 0), F(0, 1)
@@ -192,6 +355,26 @@ class AView:
         return [self.table.cells[r][c] for r, c in self.coords]
 
 
+class ASumVec:
+    """numpy integer vector whose element i is the integer SUM of the listed bit forms (result of a
+    0/1-matrix product with a bit vector); only reduction mod 2 turns it back into bits"""
+
+    def __init__(self, rows):
+        self.rows = rows
+
+    def __len__(self):
+        return len(self.rows)
+
+    def mod2(self):
+        out = []
+        for r in self.rows:
+            acc = F(0, 0)
+            for b in r:
+                acc = acc ^ b
+            out.append(acc)
+        return ABits(out, "np")
+
+
 class ACond:
     """an undecided boolean with structural identity (e.g. crc16(fields) == received)"""
 
@@ -261,6 +444,22 @@ class Abort(Exception):
     """this path cannot be analysed (unmodelled construct governs control flow)"""
 
 
+class PartialRaise(Abort):
+    """the analysed code raises for SOME inputs on this path (data-dependent failure)"""
+
+    def __init__(self, exc, where):
+        super().__init__(f"raises {exc} for some inputs at {where}")
+        self.exc, self.where = exc, where
+
+
+class NeedCases(Exception):
+    """a branch depends on a finite function of these atoms: the enclosing `if` is analysed per assignment"""
+
+    def __init__(self, atoms):
+        super().__init__(f"case split on {len(atoms)} atoms")
+        self.atoms = tuple(atoms)
+
+
 class _Ret(Exception):
     def __init__(self, v):
         self.v = v
@@ -326,6 +525,7 @@ class Interp:
         self.st: PathState = PathState([])
         self.depth = 0
         self.steps = 0
+        self.case_depth = 0
         self.summaries: Dict[str, Callable] = {}
         self.opaque_log: List[str] = []
         self.calls_seen: List[str] = []
@@ -342,6 +542,20 @@ class Interp:
         return F(1 << i, 0)
 
     def simp(self, b):
+        if isinstance(b, AFin):
+            if not any(a in self.st.subst for a in b.atoms):
+                return b
+            keep = [a for a in b.atoms if a not in self.st.subst]
+            table = []
+            for idx in range(1 << len(keep)):
+                assign = dict(self.st.subst)
+                for i, a in enumerate(keep):
+                    assign[a] = (idx >> i) & 1
+                table.append(b.value(assign))
+            r = mkfin(keep, table)
+            if isinstance(r, AFin):
+                return fin_to_bit(r)
+            return cbit(r) if r in (0, 1, True, False) else OB("non-boolean")
         if isinstance(b, OB) or b.m == 0:
             return b
         m, c = b.m, b.c
@@ -350,6 +564,19 @@ class Interp:
                 m ^= 1 << a
                 c ^= v
         return F(m, c)
+
+    def simp_fin(self, v):
+        """restrict a general (non-boolean) AFin to the current substitution"""
+        if not isinstance(v, AFin) or not any(a in self.st.subst for a in v.atoms):
+            return v
+        keep = [a for a in v.atoms if a not in self.st.subst]
+        table = []
+        for idx in range(1 << len(keep)):
+            assign = dict(self.st.subst)
+            for i, a in enumerate(keep):
+                assign[a] = (idx >> i) & 1
+            table.append(v.value(assign))
+        return mkfin(keep, table)
 
     def simp_bits(self, bits):
         return [self.simp(b) for b in bits]
@@ -404,6 +631,11 @@ class Interp:
                     self.st.conds[key] = self.st.choose(f"{v.ext}!=0")
                 return self.st.conds[key]
             return not self.decide_eq(v.msb_first(len(v.bits)), 0, label)
+        if isinstance(v, AFin):
+            v2 = self.simp_fin(v)
+            if isinstance(v2, AFin):
+                raise NeedCases(v2.atoms)
+            return bool(v2)
         if isinstance(v, ACond):
             k = v.key()
             if k not in self.st.conds:
@@ -534,7 +766,12 @@ class Frame:
             m = getattr(self, "st_" + type(st).__name__, None)
             if m is None:
                 raise Abort(f"statement {type(st).__name__} at {self.fi.module.relpath}:{st.lineno}")
-            m(st)
+            try:
+                m(st)
+            except NeedCases as nc:
+                if self.I.case_depth >= 3:
+                    raise Abort("nested case splits too deep")
+                self.stmt_by_cases(st, m, nc.atoms)
 
     def st_Expr(self, st):
         if isinstance(st.value, ast.Constant):
@@ -568,6 +805,57 @@ class Frame:
             self.exec_block(st.body)
         else:
             self.exec_block(st.orelse)
+
+    def stmt_by_cases(self, st, m, atoms):
+        """analyse one statement once per assignment of the atoms its control flow depends on, then merge the
+        resulting environments into finite functions of those atoms (exact; merge point = end of the statement)"""
+        I = self.I
+        atoms = [a for a in atoms if a not in I.st.subst]
+        if len(atoms) > MAX_FIN_ATOMS:
+            raise Abort("case split too wide")
+        base_env = self.env
+        touched = mutated_names(st)
+        results = []
+        for idx in range(1 << len(atoms)):
+            assign = {a: (idx >> i) & 1 for i, a in enumerate(atoms)}
+            memo = {}
+            env_i = {k: (snapshot(v, memo) if k in touched else v) for k, v in base_env.items()}
+            saved = dict(I.st.subst)
+            I.st.subst.update(assign)
+            self.env = env_i
+            I.case_depth += 1
+            try:
+                m(st)
+            except NeedCases as nc2:
+                I.case_depth -= 1
+                I.st.subst = saved
+                self.env = base_env
+                more = [a for a in nc2.atoms if a not in atoms]
+                if not more:
+                    raise Abort("case split does not make the branch decidable")
+                return self.stmt_by_cases(st, m, list(atoms) + more)
+            except (_Ret, _Break, _Continue):
+                raise Abort("return/break/continue inside a data-dependent branch")
+            except PathRaise as e:
+                raise PartialRaise(e.exc, f"{self.fi.module.relpath}:{st.lineno}")
+            finally:
+                I.st.subst = saved
+                self.env = base_env
+            I.case_depth -= 1
+            results.append(env_i)
+        # merge
+        names = set()
+        for e in results:
+            names.update(e.keys())
+        for nme in names:
+            if nme in base_env and nme not in touched:
+                continue
+            vals = [e.get(nme, _MISSING) for e in results]
+            orig = base_env.get(nme, _MISSING)
+            base_env[nme] = merge_cases(atoms, vals, orig)
+
+    def _unused(self):
+        pass
 
     def st_Assert(self, st):
         try:
@@ -719,7 +1007,19 @@ class Frame:
             c = self.I_const(v)
             if c is not None:
                 return c
+            acc = set()
+            try:
+                fin_atoms(AInt(self.I.simp_bits(v.bits)) if v.ext is None else v, acc)
+            except Abort:
+                acc = None
+            if acc and len(acc) <= MAX_FIN_ATOMS:
+                raise NeedCases(sorted(acc))
             raise Abort("data-dependent index")
+        if isinstance(v, AFin):
+            v2 = self.I.simp_fin(v)
+            if isinstance(v2, AFin):
+                raise NeedCases(v2.atoms)
+            return v2
         if allow_other:
             return v
         raise Abort(f"non-constant index {type(v).__name__}")
@@ -821,6 +1121,8 @@ class Frame:
     def to_bit(self, v):
         if isinstance(v, (F, OB)):
             return v
+        if isinstance(v, AFin):
+            return fin_to_bit(v)
         if isinstance(v, bool) or isinstance(v, int):
             if v in (0, 1):
                 return cbit(v)
@@ -861,6 +1163,8 @@ class Frame:
     def to_int(self, v) -> AInt:
         if isinstance(v, AInt):
             return v
+        if isinstance(v, AFin):
+            return v
         if isinstance(v, bool):
             return AInt([cbit(v)], isbool=True)
         if isinstance(v, int):
@@ -895,6 +1199,12 @@ class Frame:
             return [AInt([b]) for b in v.items]
         if isinstance(v, AView):
             return [AInt([b]) for b in v.get()]
+        if isinstance(v, AFin):
+            lens = {len(t) if isinstance(t, (tuple, list)) else None for t in v.table}
+            if len(lens) == 1 and None not in lens:
+                n = lens.pop()
+                return [mkfin(v.atoms, [t[i] for t in v.table]) for i in range(n)]
+            raise Abort("iteration over a finite function with varying shape")
         if isinstance(v, (bytes, bytearray)):
             return list(v)
         if isinstance(v, str):
@@ -1076,6 +1386,154 @@ class Frame:
 
     def ev_Starred(self, n):
         return self.ev(n.value)
+
+
+_MISSING = object()
+
+
+def _base_name(t):
+    while isinstance(t, (ast.Subscript, ast.Attribute, ast.Starred)):
+        t = t.value
+    return t.id if isinstance(t, ast.Name) else None
+
+
+def mutated_names(st) -> set:
+    """names a statement may rebind or mutate through (assignment targets, receivers and arguments of calls)"""
+    out = set()
+    for n in ast.walk(st):
+        if isinstance(n, (ast.Assign, ast.AugAssign, ast.AnnAssign, ast.For, ast.Delete, ast.comprehension, ast.NamedExpr)):
+            tgts = n.targets if isinstance(n, (ast.Assign, ast.Delete)) else [n.target]
+            for t in tgts:
+                for e in (t.elts if isinstance(t, (ast.Tuple, ast.List)) else [t]):
+                    b = _base_name(e)
+                    if b:
+                        out.add(b)
+        elif isinstance(n, ast.Call):
+            if isinstance(n.func, ast.Attribute):
+                b = _base_name(n.func.value)
+                if b:
+                    out.add(b)
+            for a in list(n.args) + [k.value for k in n.keywords]:
+                b = _base_name(a)
+                if b:
+                    out.add(b)
+    return out
+
+
+def snapshot(v, memo):
+    """copy of mutable abstract containers (identity-preserving within one snapshot)"""
+    if id(v) in memo:
+        return memo[id(v)]
+    if isinstance(v, ABits):
+        r = ABits(list(v.items), v.kind, v.endian)
+        if getattr(v, "mutable", False):
+            r.mutable = True
+    elif isinstance(v, list):
+        r = []
+        memo[id(v)] = r
+        r.extend(snapshot(x, memo) for x in v)
+        return r
+    elif isinstance(v, dict):
+        r = {}
+        memo[id(v)] = r
+        for k, x in v.items():
+            r[k] = snapshot(x, memo)
+        return r
+    elif isinstance(v, ATable):
+        r = ATable(v.rows, v.cols)
+        r.cells = [list(row) for row in v.cells]
+    elif isinstance(v, AView):
+        r = AView(snapshot(v.table, memo), v.coords)
+    elif isinstance(v, AObj):
+        r = AObj(v.cls)
+        memo[id(v)] = r
+        r.attrs = {k: snapshot(x, memo) for k, x in v.attrs.items()}
+        return r
+    else:
+        return v
+    memo[id(v)] = r
+    return r
+
+
+def merge_value(atoms, vals):
+    """one abstract value that equals vals[idx] under assignment idx of atoms"""
+    first = vals[0]
+    if all(_same(first, v) for v in vals[1:]):
+        return first
+    if any(v is _MISSING for v in vals):
+        raise Abort("name bound in some cases only")
+    # scalars -> finite function over atoms (+ the atoms of inner finite functions / forms)
+    inner = set()
+    for v in vals:
+        fin_atoms(v, inner)
+    inner -= set(atoms)
+    all_atoms = list(atoms) + sorted(inner)
+    if len(all_atoms) > MAX_FIN_ATOMS:
+        raise Abort("merged value depends on too many atoms")
+    table = []
+    for idx in range(1 << len(all_atoms)):
+        assign = {a: (idx >> i) & 1 for i, a in enumerate(all_atoms)}
+        case = idx & ((1 << len(atoms)) - 1)
+        table.append(fin_conc(vals[case], assign))
+    order = sorted(range(len(all_atoms)), key=lambda i: all_atoms[i])
+    # re-index table to sorted atom order
+    sorted_atoms = [all_atoms[i] for i in order]
+    t2 = [None] * len(table)
+    for idx in range(len(table)):
+        j = 0
+        for newpos, oldpos in enumerate(order):
+            if idx >> oldpos & 1:
+                j |= 1 << newpos
+        t2[j] = table[idx]
+    return mkfin(sorted_atoms, t2)
+
+
+def _same(a, b):
+    if a is b:
+        return True
+    if isinstance(a, (F, AFin)) or isinstance(b, (F, AFin)):
+        return a == b
+    if isinstance(a, AInt) and isinstance(b, AInt):
+        return a.ext == b.ext and len(a.bits) == len(b.bits) and all(_same(x, y) for x, y in zip(a.bits, b.bits))
+    if isinstance(a, (ABits, list, dict, ATable, AObj, AView, AOpq, OB)) or isinstance(b, (ABits, list, dict, ATable, AObj, AView, AOpq, OB)):
+        return False
+    try:
+        return type(a) == type(b) and a == b
+    except Exception:
+        return False
+
+
+def merge_cases(atoms, vals, orig):
+    """merge per-case values of one variable; containers are merged element-wise INTO the original object"""
+    first = vals[0]
+    if isinstance(first, ABits) and all(isinstance(v, ABits) and len(v.items) == len(first.items) for v in vals):
+        tgt = orig if isinstance(orig, ABits) else ABits(list(first.items), first.kind, first.endian)
+        tgt.items[:] = [_bit_merge(atoms, [v.items[i] for v in vals]) for i in range(len(first.items))]
+        return tgt
+    if isinstance(first, list) and all(isinstance(v, list) and len(v) == len(first) for v in vals):
+        tgt = orig if isinstance(orig, list) else list(first)
+        tgt[:] = [merge_cases(atoms, [v[i] for v in vals], orig[i] if isinstance(orig, list) and i < len(orig) else _MISSING) for i in range(len(first))]
+        return tgt
+    if isinstance(first, ATable) and all(isinstance(v, ATable) for v in vals):
+        tgt = orig if isinstance(orig, ATable) else first
+        tgt.cells = [[_bit_merge(atoms, [v.cells[r][c] for v in vals]) for c in range(first.cols)] for r in range(first.rows)]
+        return tgt
+    if isinstance(first, (ABits, list, ATable)):
+        raise Abort("container changes shape in a data-dependent branch")
+    if isinstance(first, (AObj, dict, AView)):
+        if all(v is first for v in vals) or orig is not _MISSING:
+            return orig if orig is not _MISSING else first
+        raise Abort("object created in a data-dependent branch")
+    return merge_value(atoms, vals)
+
+
+def _bit_merge(atoms, bits):
+    if all(_same(bits[0], b) for b in bits[1:]):
+        return bits[0]
+    if any(isinstance(b, OB) for b in bits):
+        return OB("merge of opaque")
+    r = merge_value(atoms, [AInt([b]) for b in bits])
+    return fin_to_bit(r) if isinstance(r, AFin) else cbit(r)
 
 
 def fresh(v):
